@@ -185,6 +185,30 @@ impl Loaded {
         Err(EvalErr::NoSuchKey(path.join(".")))
     }
 
+    /// locale -> effective locale according to `DefaultedLocales::compute()` (what the code generator
+    /// uses to group match arms) for a leaf key; locales not listed read their own value
+    pub fn computed_defaults(&self, ns: Option<&str>, path: &[String]) -> Option<BTreeMap<String, String>> {
+        let (_, mut keys) = self.top(ns)?;
+        for (i, k) in path.iter().enumerate() {
+            match keys.0.get(&key(k))? {
+                LocaleValue::Subkeys { keys: sk, .. } => keys = sk,
+                LocaleValue::Value { defaults, .. } => {
+                    if i + 1 != path.len() {
+                        return None;
+                    }
+                    let mut out = BTreeMap::new();
+                    for (eff, set) in defaults.compute() {
+                        for l in set {
+                            out.insert(l.name.to_string(), eff.name.to_string());
+                        }
+                    }
+                    return Some(out);
+                }
+            }
+        }
+        None
+    }
+
     pub fn interpol_at(&self, ns: Option<&str>, path: &[String]) -> Option<&InterpolOrLit> {
         let (_, mut keys) = self.top(ns)?;
         for (i, k) in path.iter().enumerate() {
